@@ -65,6 +65,12 @@ def evaluate(case) -> Outcome:
     for d in case.get("dims", []):
         out.label("dim:" + d)
     out.label(f"dims:{min(len(case.get('dims', [])), 6)}")
+    problems = confgen.spec_problems(spec)
+    if problems:
+        # not a configuration "that follows the documented conventions": outside the property's quantifier
+        out.label("ill-formed-spec-skipped")
+        out.nontrivial = False
+        return out
     work = Path(tempfile.mkdtemp(prefix="c20.", dir=str(env.scratch())))
     try:
         conf = work / "conf"
